@@ -43,7 +43,7 @@ class Known:
         d_list = bool(d.sel and d.sel.get('k') == 'list')
         if s.kind == 'plate' and d.kind == 'plate' and (s_list or d_list):
             both = s_list and d_list
-            single_list = (s_list and len(s.cells) == 1 and len(d.cells) > 1) or (d_list and len(d.cells) == 1 and len(s.cells) > 1)
+            single_list = (s_list and len(s.cells) == 1) or (d_list and len(d.cells) == 1)
             if both or single_list:
                 return self._hit('transfer_list_pairing', ('C01', 'C02', 'C07', 'locality'), skip_judge=True)
         return None
